@@ -308,7 +308,11 @@ func (rw *rewriter) run() {
 	// level 2 yields are computed on the untouched tree
 	l2 := map[ast.Stmt]bool{}
 	if rw.level >= 2 {
+		quiet := rw.callbackBodies()
 		for _, n := range stmtsLists {
+			if rw.inside(n, quiet) {
+				continue
+			}
 			for _, st := range stmtList(n) {
 				if rw.ownTouchesAtomics(st) {
 					l2[st] = true
@@ -735,4 +739,63 @@ func (rw *rewriter) ownTouchesAtomics(st ast.Stmt) bool {
 	}
 	ast.Inspect(st, visit)
 	return found
+}
+
+// callbackBodies returns the bodies of functions that lock-free containers may
+// call back while holding an internal lock (skipmap.LoadOrStoreLazy does): function
+// literals passed to methods of the atomic / lock-free packages, and named
+// functions of this file that are used as values. No yield is inserted inside
+// them: a task parked while a third-party mutex is held would block other
+// tasks on a real mutex, which the bubble cannot see.
+func (rw *rewriter) callbackBodies() map[ast.Node]bool {
+	quiet := map[ast.Node]bool{}
+	asValue := map[types.Object]bool{}
+	callee := map[*ast.Ident]bool{}
+	ast.Inspect(rw.file, func(n ast.Node) bool {
+		c, ok := n.(*ast.CallExpr)
+		if !ok {
+			return true
+		}
+		if id, ok := c.Fun.(*ast.Ident); ok {
+			callee[id] = true
+		}
+		if se, ok := c.Fun.(*ast.SelectorExpr); ok {
+			callee[se.Sel] = true
+			if sel := rw.info.Selections[se]; sel != nil && sel.Kind() == types.MethodVal {
+				if m, ok := sel.Obj().(*types.Func); ok && m.Pkg() != nil && atomicPkgs[m.Pkg().Path()] {
+					for _, a := range c.Args {
+						if fl, ok := a.(*ast.FuncLit); ok {
+							quiet[fl.Body] = true
+						}
+					}
+				}
+			}
+		}
+		return true
+	})
+	ast.Inspect(rw.file, func(n ast.Node) bool {
+		if id, ok := n.(*ast.Ident); ok && !callee[id] {
+			if f, ok := rw.info.Uses[id].(*types.Func); ok {
+				asValue[f] = true
+			}
+		}
+		return true
+	})
+	for _, d := range rw.file.Decls {
+		if fd, ok := d.(*ast.FuncDecl); ok && fd.Body != nil {
+			if obj := rw.info.Defs[fd.Name]; obj != nil && asValue[obj] {
+				quiet[fd.Body] = true
+			}
+		}
+	}
+	return quiet
+}
+
+func (rw *rewriter) inside(n ast.Node, set map[ast.Node]bool) bool {
+	for x := n; x != nil; x = rw.parents[x] {
+		if set[x] {
+			return true
+		}
+	}
+	return false
 }
